@@ -17,7 +17,7 @@ add('C03', 'E-RUN+E-CHW+gen', 'exploration',
 
 add('C01', 'E-RUN+E-CHW+gen (+E-RACE in thorough)', 'exploration',
     'History checking with fault injection: per batching configuration one child process runs the real writer (router, parsers, retry, batching services) against the fake ClickHouse client; concurrent mixed pushes in calm / random-fault / targeted phases (table keeps failing, fails once, insert held while requests arrive, reconnect refused). Offline oracle on one logical clock: every row owned by a 2xx request is in a successful INSERT that returned before the answer; unanswered requests with an idle database are violations. Thorough adds 70+ configurations and the race detector with a scope classifier.',
-    'Trusted: the fake client (outcome script = what ClickHouse answered), unique-id attribution of rows to requests, the logical clock (block return tick taken before Do returns, answer tick after the reply is read). Retry success after a single failure is recorded but not required (the statement does not demand it).',
+    'Trusted: the fake client (outcome script = what ClickHouse answered), unique-id attribution of rows to requests, the wrapped insert services as observers of Request() and of the fulfilment of its promise (a fulfilled promise of a request that carried rows needs an INSERT into the service table called after the hand-over and returned before the fulfilment; series rows of streams pushed by several clients at once are judged there only), the logical clock (block return tick taken before Do returns, answer tick after the reply is read). Retry success after a single failure is recorded but not required (the statement does not demand it).',
     'runtime monitoring: offline history checker over recorded HTTP answers and INSERT ledger, scripted fault injection, race detector', 'DESIGN §3 C01')
 add('C02', 'E-RUN+E-CHW+gen (+E-RACE in thorough)', 'exploration',
     'Every INSERT block handed to the fake client under the C01 workload plus shape stress is checked online (equal per-column row counts, ch-go encoder accepts it) and offline (every decoded row of samples/series/spans/tags/profiles equals one submitted row in all fields, no row duplicated inside a block, all rows of a single-chunk acknowledged request sit together in one successful block).',
@@ -35,7 +35,7 @@ add('C04', 'E-RUN+E-CHW+gen', 'exploration',
     'runtime monitoring: differential run of the exported parsers + offline conservation check over recorded histories, time-zone sweep', 'DESIGN §3 C04')
 add('C18', 'E-RUN+E-CAT', 'fault_enumeration',
     'The real maintenance.Update runs against a fake clickhouse.Conn with a modelled catalogue (E-CAT). For each of 10 deployment configurations every statement of the uninterrupted run is a fault point in three kinds (fails before effect; effect applied but error returned and connection dead; version write fails), followed by up to three restarts on the surviving catalogue; thorough adds a second fault at every statement of the first restart. Oracle: restarts complete, scripts applied in file order without gaps, a recorded version never ahead of completed scripts, final catalogue equal to the uninterrupted run, a further run executes no script.',
-    'Trusted: E-CAT DDL model and ClickHouse error behaviour (codes 57/60/15...), one catalogue stands for the whole cluster. Exhaustive over fault points of the enumerated configurations in the quick tier; triple faults are sampled.',
+    'Trusted: E-CAT DDL model and ClickHouse error behaviour (codes 57/60/15...), one catalogue stands for the whole cluster. Fault kinds: before / after / version-write / refused / server-exception (incl. the distributed-DDL timeout). The rows of `ver` are node-local, definitions cluster-wide; in clustered configurations every start reaches the other of two nodes. Exhaustive over fault points of the enumerated configurations in the quick tier; triple faults are sampled.',
     'runtime fault enumeration on the real Update against a modelled catalogue, statement-log monitor', 'DESIGN §3 C18, Appendix B')
 add('C19', 'E-RUN+E-CAT', 'fault_enumeration',
     'The real Update+Rotate run against E-CAT with a modelled settings table and per-table TTL / storage policy. Scenarios = deployment x sequences of 1-4 retention configurations (ttl days, 0-3 tiers with durations 1 s..100 y and disks, storage policy present/absent, clustered or not); every statement of every run is a fault point followed by restarts. Oracle: every data table ends with the configured TTL (tier moves clamped to >= 1 min / >= 1 day) and storage policy, markers written only after all tables of their group were altered, interrupted runs converge, a second run with unchanged configuration issues no ALTER.',
@@ -80,7 +80,7 @@ add('C11', 'E-RUN+E-SQLDRV+E-CHSQL+E-REF(reftraceql)', 'translation_validation',
     'runtime monitoring: translation validation by executing the recorded SQL against a reference interpreter and comparing with a direct evaluator', 'DESIGN §3 C11')
 add('C12', 'E-RUN+E-SQLDRV+E-RDCAT+E-RACE', 'exploration',
     'Crash-isolated robustness fuzzing of all 35 read routes of the real reader (router, controllers, services, planners, post-processors; Loki incl. tail over a websocket, Prometheus, Tempo v1/v2, Pyroscope) on the scripted database/sql driver: grammar-generated, mutated and random-byte query texts for LogQL/PromQL/TraceQL/Pyroscope selectors, boundary values for start/end/step/limit/direction/time (zero, negative, reversed, huge, NaN/Inf, fractions, RFC3339), result sets of every statement kind in well-formed and nine hostile shapes (wrong Go types, short ids, bad payloads, fingerprint 0, inconsistent arrays), database errors at open and at row k, cancelled contexts, clients that stop reading early or mid-response. Monitors per request: process death (child process per lane, address space capped), an HTTP answer within the watchdog (a request is wedged only if none of its goroutines is running or runnable in two dumps 2 s apart), connection closed without response, driver.Rows left open, goroutine census and connection states after quiescence. A child ends itself after a confirmed leak or wedge so that leaked work is never attributed to a later case.',
-    'Trusted: the scripted driver and its classification of the statements the reader issues, the goroutine census filter, the address-space cap (8 GiB; an out-of-memory death on a block below 1 GiB is undecided unless the live heap grew by more than 3 GiB while the request was open). A request still computing at the client timeout is a violation only when its goroutine stays in the same frames and the live heap has grown by more than 1 GiB since it began and keeps rising over three samples; otherwise undecided. A concurrent lane (8 clients, Go-side pipelines with per-line template arguments + canonical requests of all families) observes process death, unanswered connections and leftovers; a death there is attributed to the lane, not to one request. Input classes are skipped after a confirmed wedge/leak or three deaths (counted). The race-detector subset is not run for C12: a -race binary cannot start under the address-space cap.',
+    'Trusted: the scripted driver and its classification of the statements the reader issues, the goroutine census filter, the address-space cap (8 GiB; an out-of-memory death on a block below 1 GiB is undecided unless the live heap grew by more than 3 GiB while the request was open). A request still computing at the client timeout is a violation only when its goroutine stays in the same frames and the live heap has grown by more than 1 GiB since it began and keeps rising over three samples; otherwise undecided. A concurrent lane (8 clients, Go-side pipelines with per-line template arguments + canonical requests of all families) observes process death, unanswered connections and leftovers; a death there is attributed to the lane, not to one request. Database failures include connection-level ones for as long as the request lasts; the reader runs behind its production connection wrapper. Input classes are skipped after a confirmed wedge/leak or three deaths (counted). The race-detector subset is not run for C12: a -race binary cannot start under the address-space cap.',
     'runtime monitoring: crash-isolated fuzzing with response, goroutine-census, open-rows and connection-state monitors', 'DESIGN §3 C12')
 add('C15', 'E-RUN+E-SQLDRV+E-RDCAT', 'exploration',
     'Scripted result sets (any number of series, any distribution of rows over series and channel batches incl. empty batches, batch boundaries inside a series, 3000+ rows, fingerprint 0, label and line contents with control bytes / quotes / invalid UTF-8, floats from 1e-300 to 1e300, integral values, NaN-free) are fed through the real reader for every document-producing endpoint (Loki streams/matrix/vector for SQL and pipeline paths, labels, label values, series; Prometheus matrix/vector/scalar/labels/series; Tempo trace JSON, search, TraceQL, tags/values v1+v2). Oracle: the concatenated response chunks are decoded strictly as exactly one JSON document (no trailing data, no duplicate keys), validated against the documented shape of that endpoint, and compared with the scripted rows: exactly one object per stream/series, every row once, timestamps and values rendered without loss, strings equal after decoding.',
